@@ -954,6 +954,11 @@ func (r *transformingReader) Read(data []byte) (n int, err error) {
 			n, err = r.buffer.Read(data[offset:])
 		}
 		if offset+n > 0 {
+			if errors.Is(err, io.EOF) {
+				// The buffer of the current message is drained (or the message is
+				// empty). That is not the end of the request stream.
+				err = nil
+			}
 			return offset + n, err
 		}
 
